@@ -22,9 +22,9 @@ def universes(tier, base="StateMachine"):
     quick:    first (must_finish or not), reg, mf, optional default; all timed with lazy next_state links;
               in-state scripts of length <= 1 with next_state_now nesting <= 1.
     thorough: the same shapes also with untimed states, two five-state universes (second regular and second
-              must_finish state), all with scripts of length 1; and ONE timed universe (StateMachine only) with
-              two-request scripts whose first request is next_state_now ("hand over now, then ask again": where a
-              second request in one state call can get lost).  Unrestricted scripts of length 2 on every shape need
+              must_finish state), all with scripts of length 1; and ONE timed universe (StateMachine only) in which a
+              state call may make two next_state_now requests ("hand over now" twice: where the second request can get
+              lost).  Unrestricted scripts of length 2 on every shape need
               tens of GB and hours; that was run once during development (it found D6) and is not a registered tier.
     """
     out = []
@@ -45,7 +45,7 @@ def universes(tier, base="StateMachine"):
             out.append((f"{base}[five states;{'default' if with_default else 'nodefault'}]", specs, 1, 1))
         if base == "StateMachine":
             specs = [StateSpec("first", "timed", first=True), StateSpec("reg", "timed"), StateSpec("mf", "timed", must_finish=True)]
-            out.append((f"{base}[timed;first;nodefault;two requests per state call, the first one next_state_now]", specs, 2, 1))
+            out.append((f"{base}[timed;first;nodefault;two next_state_now requests per state call]", specs, 2, 1))
     return out
 
 
@@ -176,6 +176,8 @@ class SMHooks:
                 if a[0] != "next_state_now":
                     return  # single request
                 continue
+            if self.max_script > 1 and step == 1 and not after_done:
+                opts = [o for o in opts if o[0] in ("none", "next_state_now")]  # "hand over now" twice in one call
             a = opts[it.choose(len(opts), ("script", step))]
             if a[0] == "none":
                 return
@@ -349,8 +351,8 @@ class SMMonitor:
                                 err("C04.M6", "the machine stopped itself (engine done()) in an iteration for which engage() was called and in which no state expired: there is no cause of stopping")
                 if api == "next_state_now" and ctx == "statefn" and L["in_iter"]:
                     L["nows"] += 1
-                    if L.get("statefn_done"):
-                        L["contra"] = True
+                    if L.get("statefn_done") and auto:
+                        L["contra"] = True  # (autonomous machine only: done() withdraws its engage request for good)
                 if api == "done" and ctx == "statefn" and L["in_iter"]:
                     L["statefn_done"] = True
                 if api == iter_api and ctx == "client":
